@@ -1,9 +1,63 @@
-//! C07 sessions (seeded driver). Fill in.
+//! C07 sessions: values constructed as q*n + r with exact multiples, ties and tie +- 1 ns over-sampled, through every rounding entry point.
 use super::Tracer;
 use crate::gen::*;
+use crate::js::big;
 use crate::rng::Rng;
 use serde_json::json;
 
 pub fn drive(t: &mut Tracer, r: &mut Rng, n: usize) {
-    let _ = (t, r, n);
+    while t.n < n {
+        let u = *r.pick(&TIME_UNITS);
+        let mode = *r.pick(&MODES);
+        match r.range(0, 5) {
+            0 => { // PlainTime.round
+                let inc = *r.pick(&time_incs(u)); let nn = inc as i128 * unit_ns(u);
+                let q = r.range128(0, DAY_NS / nn - 1);
+                let x = q * nn + tie_biased_rem(r, nn);
+                let mut st = json!({"smallest": u, "inc": inc, "mode": mode});
+                if r.chance(1, 8) { st.as_object_mut().unwrap().remove("mode"); }
+                if inc == 1 && r.chance(1, 2) { st.as_object_mut().unwrap().remove("inc"); }
+                t.call("PlainTime.round", json!({"recv": time_json(x), "st": st}));
+            }
+            1 => { // Instant.round: increments dividing a day
+                let per_day = DAY_NS / unit_ns(u);
+                let cands: Vec<i128> = [1i128, 2, 3, 4, 5, 6, 8, 10, 12, 15, 20, 24, 25, 27, 30, 45, 60, 90, 125, 512, 675, 720, 1000, 1440, 3600, 43200, 86400, 1_000_000, 86_400_000, 864_000_000, 1_000_000_000]
+                    .iter().cloned().filter(|d| per_day % d == 0 && *d <= 1_000_000_000).collect();
+                let inc = *r.pick(&cands); let nn = inc * unit_ns(u);
+                let qmax = MAX_INSTANT / nn;
+                let q = match r.range(0, 3) { 0 => r.range128(0, 3), 1 => qmax - r.range128(0, 1).min(qmax), _ => r.range128(0, qmax - 1) };
+                let mut x = q * nn + tie_biased_rem(r, nn);
+                if x > MAX_INSTANT { x = MAX_INSTANT; }
+                if r.chance(1, 2) { x = -x; }
+                t.call("Instant.round", json!({"recv": big(x), "st": {"smallest": u, "inc": inc as i64, "mode": mode}}));
+            }
+            2 | 3 => { // until / since with rounding
+                let inc = *r.pick(&time_incs(u)); let nn = inc as i128 * unit_ns(u);
+                let lgs: Vec<&str> = TIME_UNITS.iter().cloned().filter(|l| unit_rank(l) >= unit_rank(u)).collect();
+                let lg = *r.pick(&lgs);
+                let since = r.chance(1, 2);
+                if r.chance(1, 2) {
+                    let q = r.range128(0, DAY_NS / nn - 1);
+                    let x = q * nn + tie_biased_rem(r, nn);
+                    let a = r.range128(0, DAY_NS - 1 - x);
+                    let (recv, other) = if r.chance(1, 2) { (a, a + x) } else { (a + x, a) };
+                    t.call(if since { "PlainTime.since" } else { "PlainTime.until" }, json!({"recv": time_json(recv), "other": time_json(other), "st": {"largest": lg, "smallest": u, "inc": inc, "mode": mode}}));
+                } else {
+                    let q = r.range128(0, (MAX_INSTANT / nn).min(1 << 40));
+                    let x = q * nn + tie_biased_rem(r, nn);
+                    let a = r.range128(-MAX_INSTANT, MAX_INSTANT - x);
+                    let (recv, other) = if r.chance(1, 2) { (a, a + x) } else { (a + x, a) };
+                    t.call(if since { "Instant.since" } else { "Instant.until" }, json!({"recv": big(recv), "other": big(other), "st": {"largest": lg, "smallest": u, "inc": inc, "mode": mode}}));
+                }
+            }
+            _ => { // the rounder itself through the hook
+                let nn = match r.range(0, 3) { 0 => r.range(1, 20) as i128, 1 => r.range(1, 1_000_000_000) as i128 * unit_ns(u), _ => r.range128(1, 1_000_000_000_000_000_000_000) };
+                let q = r.range128(0, 9_000_000_000_000_000_000_000_000 / nn);
+                let mut x = q * nn + tie_biased_rem(r, nn);
+                if r.chance(1, 2) { x = -x; }
+                t.call("Round.i128", json!({"x": big(x), "inc": big(nn), "mode": mode}));
+            }
+        }
+        t.reset();
+    }
 }
